@@ -64,7 +64,6 @@ pub open spec fn block_applied<C: ContentAddrStore>(s: UnsealedState<C>, block: 
 // ---- C08 restart
 /// invariant of sealed states: sealing with a proposer action pays out all pending tips
 pub open spec fn sealed_ok<C: ContentAddrStore>(s: SealedState<C>) -> bool { s.1 is Some ==> s.0.tips.0 == 0 }
-pub open spec fn txs_keyed(m: Map<TxHash, Transaction>) -> bool { forall|h: TxHash| m.contains_key(h) ==> spec_txhash(#[trigger] m[h]) == h }
 /// `blk` is the block a sealed state `s` serialises to
 pub open spec fn is_block_of<C: ContentAddrStore>(s: SealedState<C>, blk: Block) -> bool {
     blk.header == spec_header(s.0) && blk.proposer_action == s.1 && blk.transactions@ == s.0.transactions@.values() && txs_keyed(s.0.transactions@) && chain_ok(s.0)
